@@ -41,6 +41,9 @@ pub enum ModelParseError {
     #[error("USE_GV is true, but positions for GV is not set")]
     UseGvError,
 
+    #[error("Tree refers to an unknown question or node, or is malformed")]
+    MalformedTree,
+
     #[error("Failed to parse question: {0}")]
     QuestionParseError(#[from] jlabel_question::ParseError),
 }
